@@ -104,6 +104,20 @@ func init() {
 					return outs(a, b, c)
 				}}
 			}},
+		// the two periods set through the exported fields; Compute aligns the EMA to the ATR by skipping
+		// Atr.IdlePeriod()-Ema.IdlePeriod() values, which is defined up to an EMA period of ATR period + 1
+		Pipe{Name: "volatility.KeltnerChannel/fields", Class: "indicator", Inputs: ins("high", "low", "close"), Params: ps("atr", "ema"),
+			Default: cfgOf(volatility.DefaultKeltnerChannelPeriod, volatility.DefaultKeltnerChannelPeriod),
+			Valid:   func(c []int) bool { return c[1] <= c[0]+1 },
+			Make: func(cfg []int) Inst {
+				x := volatility.NewKeltnerChannel[float64]()
+				x.Atr = volatility.NewAtrWithPeriod[float64](cfg[0])
+				x.Ema = trend.NewEmaWithPeriod[float64](cfg[1])
+				return Inst{Idle: x.IdlePeriod, Compute: func(in []<-chan float64) []Out {
+					a, b, c := x.Compute(in[0], in[1], in[2])
+					return outs(a, b, c)
+				}}
+			}},
 		Pipe{Name: "volatility.MovingStd", Class: "indicator", Inputs: in1("c"), Params: ps("period"),
 			Default: cfgOf(volatility.DefaultMovingStdPeriod),
 			Make: func(cfg []int) Inst {
